@@ -751,13 +751,16 @@ func (s *scanner) readInlineImage() (Operator, error) {
 	} else {
 		// no Length key: read until we find [\r\n]EI pattern
 		var prevByte byte
-		for len(imageData) < maxInlineImageBytes {
+		found := false
+		// the limit applies to the image data, not to the EOL before EI
+		for len(imageData) <= maxInlineImageBytes+1 {
 			// check for EI pattern: previous byte is \r or \n, followed by "EI" + delimiter
 			if (prevByte == '\r' || prevByte == '\n') && s.checkEI() {
 				// remove the trailing newline from image data
 				if len(imageData) > 0 {
 					imageData = imageData[:len(imageData)-1]
 				}
+				found = true
 				break
 			}
 
@@ -769,7 +772,7 @@ func (s *scanner) readInlineImage() (Operator, error) {
 			prevByte = b
 		}
 
-		if len(imageData) >= maxInlineImageBytes {
+		if !found || len(imageData) > maxInlineImageBytes {
 			// no valid EI found within limit
 			return Operator{}, parseError{}
 		}
